@@ -114,6 +114,9 @@ def gen_scenario(r, force_role=None):
             src, dst = r.sample(owners, 2)
             if force_role == 'src': src = owners[0]
             if force_role == 'dst': dst = owners[0]
+            if force_role == 'by':
+                ps = [o for o in owners if o[0] == 'P']
+                if len(ps) >= 2: src, dst = r.sample(ps, 2)
             if src == dst or (src[0] == 'L' and dst[0] == 'L'):
                 add(src, 'n', [segs[i]]); i += 1; continue
             if any(m[0] == tuple(rs) for m in migs):
@@ -165,7 +168,7 @@ def gen_cases(chk):
             cases.append('nodes %s 7 %s %s %s %s' % (v, SELF, lt, pt, fmt_states(st))); wf.append(False)
     nsc = 40 if quick else 600
     for i in range(nsc):
-        local, peer, migs = gen_scenario(r, force_role=[None, 'src', 'dst'][i % 3])
+        local, peer, migs = gen_scenario(r, force_role=[None, 'src', 'dst', 'by'][i % 4])
         lt, pt = fmt_tlayout(local), fmt_tlayout(peer)
         epoch = r.choice([1, 7, 233, 2 ** 40])
         # every phase for every migration (exhaustive when there is one migration; sampled combinations otherwise)
@@ -254,6 +257,15 @@ def monitor(case, out, wf):
             return 'generator produced a non-wf view at slot %d: %r' % (s, c)
     return None
 
+def agree(o, m):
+    """equal, except that in the routing probe the implementation's owner must be a member of the model's owner set"""
+    if o == m: return True
+    if ' | route ' not in o or ' | route ' not in m: return False
+    oh, orr = o.split(' | route '); mh, mr = m.split(' | route ')
+    if oh != mh: return False
+    a = expand_runs(orr); b = expand_runs(mr)
+    return all(x == y or (x[:1] == y[:1] and x[1:] in y[1:].split('|')) for x, y in zip(a, b))
+
 def run(chk):
     ok = vlib.standard_proof_phase(chk, TRUSTED, 'slot')
     chk.cov['rule'] = ('cases = (NODES version, epoch, view = tagged local + peer slot ranges, state map) through the real ClusterBackendMap (gen_cluster_nodes, gen_cluster_slots, '
@@ -290,19 +302,24 @@ def run(chk):
                 for tg, rs in srs:
                     if tg == 'm':
                         phases[st.get(rs, 'none')] = phases.get(st.get(rs, 'none'), 0) + 1
-            if 'm:' in t[4]: roles['source'] += 1
-            if 'i:' in t[4]: roles['destination'] += 1
-            if 'm:' in t[5] and 'm:' not in t[4] and 'i:' not in t[4]: roles['bystander'] += 1
+            limp = set(rs for a, srs in parse_tlayout(t[4]) for tg, rs in srs if tg == 'i')
+            for a, srs in parse_tlayout(t[4]):
+                for tg, rs in srs:
+                    if tg == 'm': roles['source'] += 1
+                    if tg == 'i': roles['destination'] += 1
+            for a, srs in parse_tlayout(t[5]):
+                for tg, rs in srs:
+                    if tg == 'm' and rs not in limp: roles['bystander'] += 1
         bad = monitor(c, o, wf[i]) if not o.startswith(('<no', 'panic', 'setcluster', 'switch')) else 'harness could not run the case: ' + o[:100]
         oc = o.split(' | states ')[0] if kind == 'pnodes' else o
         if bad:
             nfail += 1
             chk.violation({'kind': 'monitor', 'case': c, 'impl': o[:2000], 'model': m[:2000], 'what': bad})
-        elif oc != m:
+        elif not agree(oc, m):
             disagreements.append({'case': c, 'model_case': mcases[i], 'impl': o[:2000], 'model': m[:2000]})
         if i % 53 == 0: chk.sample({'case': c[:300], 'impl': o[:300], 'model': m[:300]})
     chk.cov['traces_validated_against_impl'] = len(cases) - len(disagreements)
-    chk.sub('distribution', kinds=hist, migration_phase_of_each_migrating_range=phases, role_of_this_proxy=roles,
+    chk.sub('distribution', kinds=hist, migration_phase_of_each_migrating_range=phases, role_of_this_proxy_per_migration=roles,
             monitor_failures=nfail, disagreements=len(disagreements))
     chk.sub('all_slots', exhaustive=True, slots_per_case=SLOT_NUM)
     if disagreements and not nfail:
